@@ -1,3 +1,4 @@
+import numpy as np
 import xarray as xr
 from dask.base import compute
 from typing_extensions import Self
@@ -21,6 +22,8 @@ class Sanitizer(Transformer):
         self.feature_coords = xr.DataArray()
         self.sample_coords = xr.DataArray()
         self.is_valid_feature = xr.DataArray()
+        # Valid samples of the data most recently passed to .transform()
+        self.is_valid_sample_transform = None
 
     def get_serialization_attrs(self) -> dict:
         return dict(
@@ -121,6 +124,10 @@ class Sanitizer(Transformer):
                     " the SVD to fail."
                 )
 
+            # Remember which samples are dropped so that scores of unseen data
+            # can be returned on the complete set of samples
+            self.is_valid_sample_transform = X_valid_samples
+
             X = X.where(X_valid_features & X_valid_samples, drop=True)
 
         return X
@@ -153,5 +160,16 @@ class Sanitizer(Transformer):
             return X.reindex({self.sample_name: self.sample_coords.values})
 
     def inverse_transform_scores_unseen(self, X: DataArray) -> DataArray:
-        # Don't check sample coords for unseen data
-        return X
+        # Don't check sample coords for unseen data, but re-insert (as NaN) the
+        # all-NaN samples that were dropped during .transform()
+        is_valid = self.is_valid_sample_transform
+        if is_valid is None or self.sample_name not in X.dims:
+            return X
+        n_valid = int(is_valid.sum())
+        if n_valid == is_valid.size or X.sizes[self.sample_name] != n_valid:
+            return X
+        idx = np.zeros(is_valid.size, dtype=int)
+        idx[is_valid.values] = np.arange(n_valid)
+        X = X.isel({self.sample_name: idx})
+        X = X.assign_coords({self.sample_name: is_valid.coords[self.sample_name]})
+        return X.where(is_valid)
